@@ -55,7 +55,8 @@ def strategy_(draw, tier):
     return draw(sched.sched_specs(quiet=True, adaptive=True, empty_ok=True,
                                   all_quiet_ok=True,
                                   precisions=(None, None, None, 1, 2, 5),
-                                  state_cond=True, deep=tier == 'thorough'))
+                                  state_cond=True, deep=tier == 'thorough',
+                                  decimal_ok=True, big_t0_ok=True))
 
 
 def strategy(tier):
